@@ -184,7 +184,10 @@ def run(ctx):
     ctx.coverage["ser_containers_unparsed"] = {e["sig"]: e["unparsed"] for e in cunparsed}
     ctx.coverage["ser_containers_narrowing"] = {e["sig"]: e["narrowing"] for e in side["containers"] if e["narrowing"]}
     ctx.note("T-ser containers: %d storeObject/loadObject pairs, %d with unparsed items" % (len(side["containers"]), len(cunparsed)))
-    nparsed = len(side["classes"]) - len(unparsed) + len(side["containers"]) - len(cunparsed)
+    hunparsed = [h for h in side["helper_pairs"] if h["unparsed"]]
+    ctx.coverage["ser_helper_pairs"] = [h["name"] for h in side["helper_pairs"]]
+    ctx.coverage["ser_helper_pairs_unparsed"] = {h["name"]: h["unparsed"] for h in hunparsed}
+    nparsed = len(side["classes"]) - len(unparsed) + len(side["containers"]) - len(cunparsed) + len(side["helper_pairs"]) - len(hunparsed)
     # 3. prove
     ok, out, failed = ctx.prove(["Base", "Gen", "C16"],
                                 ["theories/C16/Properties_C16.vo", "theories/C16/Extract_C16.vo"],
@@ -247,7 +250,23 @@ def run(ctx):
             if e["sig"] in tasym:
                 ctx.note("  %s store: %s" % (e["sig"], " ".join(e["store"])))
                 ctx.note("  %s load : %s" % (e["sig"], " ".join(e["load"])))
-    asym = asym + tasym
+    mh = re.search(r"hfail=\[([\d,]*)\] hcovered=(\w+) hconds=(\w+)", sym)
+    hbyid = {h["id"]: h for h in side["helper_pairs"]}
+    hfail = ["store%s/load%s" % (hbyid[int(x)]["name"], hbyid[int(x)]["name"]) for x in mh.group(1).split(",") if x] if mh else []
+    if mh and mh.group(2) != "true":
+        hfail.append("(a called store/load helper has no pair that was read)")
+    if mh and mh.group(3) != "true":
+        hfail.append("(decision conditions of a store/load helper differ from the reviewed table Helpers16.v)")
+        pinned_txt = open(os.path.join(V.COQ, "theories", "C16", "Helpers16.v")).read()
+        for h in side["helper_pairs"]:
+            for d in ("store", "load"):
+                line = "%s%s%s: %s" % (d, h["name"], " " if d == "load" else "", " ; ".join(h[d + "_conds"]))
+                if line.replace("*)", "* )").replace("(*", "( *") not in pinned_txt:
+                    ctx.note("  changed decisions: " + line[:400])
+    ctx.coverage["ser_helper_obligations_failing"] = hfail
+    if hfail:
+        ctx.note("store/load helper pairs failing their obligation: %s" % hfail)
+    asym = asym + tasym + hfail
     ctx.coverage["ser_asymmetric"] = asym
     ctx.coverage["ser_abstract_checked_through_subclasses"] = opn
     if asym:
@@ -409,7 +428,7 @@ def run(ctx):
     ctx.note("object references: %d runs (%d with shared pointers), all equal to the model" % (len(olines), shared))
     # ---- 5b. pool-level correspondence ---------------------------------------------------------------------
     t1 = time.time()
-    n_gr = (36 if ctx.tier == "quick" else 1500)
+    n_gr = (48 if ctx.tier == "quick" else 1500)
     if asym:
         n_gr *= 3            # refuter budget when an obligation broke
     preq, pmeta = [], []
@@ -418,6 +437,14 @@ def run(ctx):
         if n % 3 == 0:
             g, ins, feats = G.dtd_case(ctx.rng)
             kind = "dtd"
+        elif n % 3 == 2:
+            # user-defined components named like built-ins / like each other in two namespaces (imported grammar first)
+            gs, ins, feats = G.xsd_clash_case(ctx.rng)
+            for f in feats:
+                feats_seen[f] = feats_seen.get(f, 0) + 1
+            preq.append("pool xsd cmp %s %s" % ("+".join(hx(x) for x in gs), " ".join(hx(i) for i in ins)))
+            pmeta.append(("xsd", "\n".join(gs), ins))
+            continue
         else:
             g, ins, feats = G.xsd_case(ctx.rng)
             kind = "xsd"
